@@ -372,8 +372,15 @@ var VerifGenerators = map[uint64]func(t *rapid.T) MessagePayload{
 	},
 	MessageTypeHeaders: func(t *rapid.T) MessagePayload {
 		m := &Headers{RequestHeight: rapid.SampledFrom([]int32{-1, 0, 7, 2147483647}).Draw(t, "rh"), StartHeight: verifU32(t, "sh")}
-		for i, n := 0, rapid.SampledFrom([]int{0, 1, 2, 3, 253}).Draw(t, "n"); i < n; i++ {
-			h := verifHeader(t, "hdr")
+		// list lengths around the decoder's 256-element reservation limit as well
+		n := rapid.SampledFrom([]int{0, 1, 1, 2, 2, 3, 3, 253, 255, 256, 257, 300}).Draw(t, "n")
+		var base wire.BlockHeader
+		for i := 0; i < n; i++ {
+			if i < 4 {
+				base = verifHeader(t, "hdr")
+			}
+			h := base
+			h.Nonce += uint32(i) // long lists: distinct headers without thousands of draws
 			m.Headers = append(m.Headers, &h)
 		}
 		return m
